@@ -12,7 +12,8 @@ PROPERTY_ID = 'C02'
 LEVEL = 'exploration'
 RULE = ('Gaussian-copula tables (2..5 base columns, 9 marginal kinds incl. integer-valued ties and mixtures, factor / '
         'equicorrelation / AR(1) / block correlations, n 20..1000, str/int/mixed column labels) plus up to two derived '
-        'columns (duplicate, negation, affine, monotone transform, constant, near-duplicate) x marginal configuration '
+        'columns (duplicate, negation, affine, monotone transform, constant, near-duplicate), optionally one or two columns shifted '
+        'far from the origin (|offset| = 10^4..10^9 standard deviations: timestamps, ids) x marginal configuration '
         '(class, FQN, instance with options, per-column dict with missing keys, default selection in a small share). '
         'Oracle: independent recomputation (numpy corrcoef of Phi^-1(clip(F_k(x)))) and validity invariants. '
         'Non-trivial: >= 3 columns or a degenerate column pair; distinct = distinct generated case.')
@@ -34,7 +35,11 @@ def strategy(allow_default):
                                      allow_default=allow_default))
         if allow_default:
             table['n'] = min(table['n'], 300)
-        return {'table': table, 'derived': ops, 'config': cfg, 'prefit_seed': draw(st.one_of(st.none(), st.none(), S.SEEDS))}
+        # columns far from the origin relative to their spread (timestamps, ids): x + sign * 10^e * sd(x), e in [4, 9]
+        offsets = draw(st.one_of(st.just([]), st.just([]), st.lists(st.fixed_dictionaries({
+            'col': st.integers(0, total - 1), 'exp': st.floats(4.0, 9.0), 'neg': st.booleans()}), min_size=1, max_size=2)))
+        return {'table': table, 'derived': ops, 'config': cfg, 'prefit_seed': draw(st.one_of(st.none(), st.none(), S.SEEDS)),
+                'offsets': offsets}
 
     return cases()
 
@@ -46,6 +51,10 @@ def oracle(case):
     df = M.add_derived(df, case['derived'], case['table']['seed'])
     names = list(df.columns)
     d = len(names)
+    for off in case.get('offsets') or []:
+        col = names[off['col'] % d]
+        x = df[col].to_numpy().astype(float)
+        df[col] = x + (-1.0 if off['neg'] else 1.0) * 10.0 ** off['exp'] * (float(np.std(x)) or 1.0)
     model = M.build_gaussian(case['config'], names)
     if case.get('prefit_seed') is not None:
         # history: the same object was fitted on another table (same schema) before
@@ -74,6 +83,18 @@ def oracle(case):
         return {'nontrivial': False, 'classes': ['precondition:nan-marginal-cdf']}
     flat = np.ptp(Z, axis=0) == 0            # constant normal scores: correlation undefined -> 0
     require(np.all(flat[const]), 'a constant column has non-constant normal scores', tag='constant-scores')
+    # constant scores on a non-constant column are only a matter of the marginal (C03/C04) when its family is fitted by
+    # numerical MLE (which may degenerate); the closed-form / kernel marginals cannot lose a column that is non-constant
+    # well above floating-point resolution - the model treated the column as constant
+    for k in np.nonzero(flat & ~const)[0]:
+        uni = model.univariates[k]
+        fam = type(getattr(uni, '_instance', None) or uni).__name__
+        x = df[names[k]].to_numpy().astype(float)
+        resolved = np.ptp(x) > 1e4 * np.finfo(float).eps * np.max(np.abs(x))
+        require(not (resolved and fam in ('GaussianUnivariate', 'UniformUnivariate', 'GaussianKDE')),
+                'column %r is not constant (range %.6g around %.6g, %d distinct values) but its fitted %s marginal maps every training '
+                'value to the same normal score: the column lost its unit diagonal and all its correlations'
+                % (names[k], np.ptp(x), np.mean(x), len(np.unique(x)), fam), tag='nonconstant-as-constant')
     diag = np.diag(C)
     require(np.all(np.abs(diag[~flat] - 1) <= 2 * EPS32), 'diagonal of columns with non-constant scores: %r' % diag[~flat], tag='diagonal')
     require(np.all(np.abs(diag[flat]) <= 2 * EPS32), 'diagonal of constant columns: %r' % diag[flat], tag='diagonal-constant')
@@ -124,6 +145,8 @@ def oracle(case):
         cls.append('degenerate-fitted-marginal')
     for op in case['derived']:
         cls.append('derived:' + op['op'])
+    if case.get('offsets'):
+        cls.append('offset-column')
     return {'nontrivial': d >= 3 or bool(degenerate), 'classes': cls}
 
 
